@@ -23,6 +23,9 @@ META = {
         "terminal response implies an accepted EXECUTION record. Non-trivial = execution with >=30 task switches in some "
         "invocation and >=2 API calls (producer and batcher really interleaved); distinct = (program shape, fault/crash "
         "plan, decision-trace hash of the first invocation)."
+        " Plus fault enumeration: for seven fixed small programs (final failures delivered into try/except, interrupted at-most-once steps whose retry "
+        "declines, suspensions, map) every backend call of the first three invocations fails once per error class and request/response loss; "
+        "plus brown-out cases in which one backend call takes 60-130 virtual seconds before it fails or succeeds."
         " Plus LinePreempt sweeps: for six fixed small programs (with/without a failing call) one run per executed source line of state.py/threading.py in which the task executing that line is preempted as long as anything else can run."
     ),
     "assumptions": ["the instant of visibility is the return of the DurableContext call into the generated program (the harness owns the schedule, so reading the backend table there is race-free)"],
@@ -135,4 +138,61 @@ def _sweep_stage(ctx):
                               limit=ctx.budget.get("sweep_limit", 700), label="one long preemption per line of state/threading: " + label)
 
 
-install(globals(), props=("C03",), cases=cases, nontrivial=nontrivial, classes=classes, stages=(_fault_stage, _sweep_stage))
+def _T(stmt):
+    return {"op": "try", "body": stmt, "catch": ["Exception", "StepInterruptedError"], "handler": []}
+
+
+def _R(k, mx, **kw):
+    return {"op": "step", "beh": {"kind": "fail_by_attempt", "k": k, "err": "UserError", "v": 1}, "sem": kw.pop("sem", "least"),
+            "retry": {"kind": "table", "max": mx, "delays": [1], "nonretry": []}, **kw}
+
+
+ENUM_BASES = [
+    # (label, body, crash plan): every API call of the first three invocations fails once (2 classes x request/response lost)
+    ("try{at-most-once step} interrupted, retry declines", [_T(_S(1, sem="most")), _S(2)], [{"inv": 0, "at": "user", "n": 0}]),
+    ("try{at-most-once retrying step} interrupted twice", [_T(_R(0, 2, sem="most")), _S(2)], [{"inv": 0, "at": "user", "n": 0}, {"inv": 1, "at": "user", "n": 0}]),
+    ("try{failing step, retries exhausted}", [_T(_R(5, 2)), _S(2)], []),
+    ("try{child{failing step}}; step", [_T({"op": "child", "body": [{"op": "step", "beh": {"kind": "always_fail", "err": "UserError", "msg": "x"}, "sem": "least", "retry": {"kind": "none"}}]}), _S(3)], []),
+    ("step; wait; step", [_S(1), {"op": "wait", "secs": 1}, _S(2)], []),
+    ("try{wfcond that fails}; callback", [_T({"op": "wfcond", "init": 0, "decisions": [["continue", 1], ["stop"]], "trans": "count", "fail_at": 2}), {"op": "wfcb"}], []),
+    ("map{step}", [{"op": "map", "items": [1, 2], "body": [_S(1)], "cfg": {"max_concurrency": None, "completion": {"min": None, "tol": 2, "pct": None}}}], []),
+]
+
+
+def _enum_stage(ctx):
+    """Fault enumeration: for fixed small programs (final failures delivered into a try/except, interrupted at-most-once
+    steps, suspensions) every backend call of the first invocations fails once."""
+    from .. import wfcheck as WC
+
+    total = 0
+    for i, (label, body, crashes) in enumerate(ENUM_BASES):
+        if ctx.nshards > 1 and i % ctx.nshards != ctx.shard % ctx.nshards:
+            continue
+        for page in (None, 1):
+            base = {"prog": {"body": body}, "backend": {"response": "delta", "page_size": page}, "plan": {"crashes": crashes, "faults": []}, "sched": [{"mode": "seq"}], "line": [], "max_raises": 2}
+            total += WC.enumerate_faults(ctx, base, PROPS, nontrivial=nontrivial, classes=lambda r, c: ["fault-enumeration"] + classes(r, c),
+                                         fault_classes=("server5xx", "client4xx", "throttle"))
+    ctx.extra["fault_points_enumerated"] = ctx.extra.get("fault_points_enumerated", 0) + total
+
+
+@st.composite
+def slow_call_cases(draw):
+    """A brown-out: one backend call takes 60-130 s (virtual) and then fails or succeeds; nothing may become visible
+    to user code, nor may PENDING/SUCCEEDED be reported, while a record is still unaccepted."""
+    body = draw(st.lists(st.one_of(G.steps(allow_fail=False), G.waits(2), st.builds(lambda b: {"op": "child", "body": b}, st.lists(G.steps(allow_fail=False), min_size=1, max_size=2))),
+                         min_size=1, max_size=3))
+    api = draw(st.integers(0, 3))
+    fault = draw(st.sampled_from([None, "server5xx", "client4xx", "throttle"]))
+    return {"prog": {"body": body}, "backend": {"response": "delta", "slow_calls": {f"0:{api}": draw(st.sampled_from([60.0, 80.0, 130.0]))}},
+            "plan": {"crashes": [], "faults": [{"inv": 0, "api": api, "class": fault, "when": draw(st.sampled_from(["before", "after"]))}] if fault else []},
+            "sched": [draw(G.chooser_specs())], "line": [], "max_raises": 1}
+
+
+def _slow_stage(ctx):
+    from .. import wfcheck as WC
+
+    WC.run_generated(ctx, slow_call_cases(), PROPS, n_cases=max(20, ctx.budget.get("fault_cases", 100) // 3), nontrivial=lambda r, c: None,
+                     classes=lambda r, c: ["slow-backend-call"] + classes(r, c), seed_offset=5)
+
+
+install(globals(), props=("C03",), cases=cases, nontrivial=nontrivial, classes=classes, stages=(_fault_stage, _enum_stage, _slow_stage, _sweep_stage))
